@@ -116,13 +116,13 @@ func genSeqCfg(rng *rand.Rand, prof string, idx int) seqCfg {
 	if lay.r {
 		cfg.Refresh = pick(rng, "creating", "writing", "custom")
 		cfg.R = int64(1 + rng.Intn(4))
-		if prof == "deadline" && rng.Intn(4) == 0 {
-			cfg.R = vINF
+		if (prof == "deadline" || prof == "persist") && rng.Intn(4) == 0 {
+			cfg.R = vINF // entries that are never due for refresh (saved as such, restored as such whatever the clock does meanwhile)
 		}
 		if cfg.Refresh == "custom" {
 			n := 3 + rng.Intn(4)
 			g.rng = rng
-			cfg.RC = g.durTable(n, false, prof == "deadline")
+			cfg.RC = g.durTable(n, false, prof == "deadline" || prof == "persist")
 			cfg.RU = g.durTable(n, true, false)
 			cfg.RR = g.durTable(n, true, false)
 			cfg.RF = g.durTable(n, true, false)
